@@ -86,6 +86,10 @@ EXCLUDE = {
 MANUAL = {
     # gates that do not go through not_implemented(): the schedule they lead to is deliberately absent
     '1040.need_8962': {'polarity': True, 'readers': ['1040'], 'why': 'leads to Schedule 2, which is not in the catalogue (unsupported form)'},
+    # IRA -> HSA funding distribution: also occurs in the 'more than one exception' sum (a comparison), which made the
+    # automatic rule skip it; reviewed: whenever lines 4a/4b consult it and it is yes, they refuse
+    '1040.ira_exception4_you': {'polarity': True, 'readers': ['1040'], 'why': 'HSA funding distribution is not implemented'},
+    '1040.ira_exception4_spouse': {'polarity': True, 'readers': ['1040'], 'why': 'HSA funding distribution is not implemented'},
 }
 
 
